@@ -11,6 +11,18 @@ try {
   console.log(JSON.stringify({ fatal: "cannot load merge.ts: " + e }));
   process.exit(0);
 }
+// undefined anywhere in the merged value (JSON.stringify would print it as null or drop it)
+function hasUndefined(v) {
+  if (v === undefined) return true;
+  if (Array.isArray(v)) {
+    for (let i = 0; i < v.length; i++) if (hasUndefined(v[i])) return true;
+    return false;
+  }
+  if (v !== null && typeof v === "object") {
+    for (const k of Object.keys(v)) if (hasUndefined(v[k])) return true;
+  }
+  return false;
+}
 const lines = fs.readFileSync(0, "utf8").split("\n");
 const out = [];
 for (const line of lines) {
@@ -18,8 +30,12 @@ for (const line of lines) {
   let r;
   try {
     const c = JSON.parse(line);
-    const v = c.delta === undefined ? c.prev : merge(c.prev, c.delta);
-    r = { ok: v === undefined ? null : v, undef: v === undefined };
+    const v = merge(c.prev, c.delta === undefined ? null : c.delta);
+    if (hasUndefined(v)) {
+      r = { err: "the merged value contains undefined" };
+    } else {
+      r = { ok: v };
+    }
   } catch (e) {
     r = { err: String(e) };
   }
